@@ -1,4 +1,4 @@
-import ScrapliModel.Lemmas.RegexScan
+import ScrapliModel.Lemmas.RegexCaps
 import ScrapliModel.Netconf.Store
 import ScrapliModel.Generated.Patterns
 /-!
@@ -710,6 +710,116 @@ theorem firstId_isSome_eq_firstFrom (b : Bytes) :
 theorem firstId_isSome (b : Bytes) (hb : NoLongS b) :
     (firstId b).isSome = isMatch Gen.Rx.Netconf.messageID b := by
   rw [isMatch_eq_firstFrom _ _ (find_messageID b hb), firstId_isSome_eq_firstFrom]
+
+
+/-! ## the captured id -/
+
+theorem messageID_pieces {p q1 q2 q : Pos} (hg : NoLongS p.after)
+    (h1 : Matches (seqRe (midAtoms.map (·.1))) p q1)
+    (h3 : Matches (.plus (.cls [(48, 57)]) true) q1 q2) (h4 : Matches (.lit 34) q2 q) :
+    ∃ rest, dropFold midPrefix p.after = some rest ∧ q1 = p.advance 12 ∧ 12 ≤ p.after.length ∧
+      q1.after = rest ∧ q2 = q1.advance (rest.takeWhile isDigit).length ∧
+      (rest.takeWhile isDigit).length ≤ rest.length := by
+  have hseq := matches_seqRe NoLongS.suffixClosed midAtoms midAtoms_byteAtom p q1 hg
+  simp only [midAtoms_snd, ← dropFold_eq_dropPred, midAtoms_length] at hseq
+  obtain ⟨hd, rfl⟩ := hseq.mp h1
+  obtain ⟨hlen, hrest⟩ := dropPred_length (by rw [← dropFold_eq_dropPred]; exact hd :
+    dropPred (midPrefix.map foldPred) p.after = some (p.advance 12).after)
+  simp only [List.length_map] at hlen hrest
+  have h12 : midPrefix.length = 12 := rfl
+  rw [h12] at hlen hrest
+  have hg1 : NoLongS (p.advance 12).after := by rw [hrest]; exact hg.drop 12
+  rw [matches_plus_byteAtom true NoLongS.suffixClosed (byteAtom_digit NoLongS) _ _ hg1] at h3
+  obtain ⟨n, hn1, hn2, hall, rfl⟩ := h3
+  have hg2 : NoLongS ((p.advance 12).advance n).after := by
+    rw [Pos.advance_after]; exact hg1.drop n
+  obtain ⟨c, t, hs, hc, rfl⟩ := (byteAtom_byte 34 (by decide) NoLongS _ _ hg2).mp h4
+  have hcq : c = QUOTE := by
+    have : c = 34 := by simpa using hc
+    exact this
+  subst hcq
+  rw [Pos.advance_after] at hs
+  obtain ⟨e1, _⟩ := span_unique n (p.advance 12).after QUOTE t hn2 hall hs isDigit_quote
+  have hlen' : ((p.advance 12).after.takeWhile isDigit).length = n := by
+    rw [e1, List.length_take, Nat.min_eq_left hn2]
+  exact ⟨(p.advance 12).after, hd, rfl, by omega, rfl, by rw [hlen'], by rw [hlen']; exact hn2⟩
+
+/-- the capture table the engine can report for the message-id pattern is forced: group 1 is the
+maximal digit run after the literal part -/
+theorem messageID_caps {p q : Pos} {c : Caps} (hg : NoLongS p.after)
+    (h : MatchesC Gen.Rx.Netconf.messageID p [] q c) :
+    ∃ rest, dropFold midPrefix p.after = some rest ∧ 12 ≤ p.after.length ∧
+      rest = p.after.drop 12 ∧
+      c = [(1, p.off + 12, p.off + 12 + (rest.takeWhile isDigit).length)] ∧
+      (rest.takeWhile isDigit).length ≤ rest.length := by
+  rw [messageID_shape] at h
+  cases h with
+  | cat hA hBC =>
+    cases hBC with
+    | cat hG hQ =>
+      cases hG with
+      | group hD =>
+        have e1 := hA.noGroup_caps rfl
+        have e2 := hD.noGroup_caps rfl
+        have e3 := hQ.noGroup_caps rfl
+        obtain ⟨rest, hd, hq1, h12, hra, hq2, hle⟩ :=
+          messageID_pieces hg hA.forget hD.forget hQ.forget
+        refine ⟨rest, hd, h12, ?_, ?_, hle⟩
+        · rw [← hra, hq1, Pos.advance_after]
+        · subst hq1
+          have o1 := Pos.advance_off 12 p h12
+          have o2 := Pos.advance_off (rest.takeWhile isDigit).length (p.advance 12)
+            (by rw [hra]; exact hle)
+          rw [e3, e2, e1, hq2, o2, o1]
+
+theorem idHere_eq {x rest : Bytes} (hd : dropFold midPrefix x = some rest)
+    (h : (idHere x).isSome = true) : idHere x = some (atoiClamp (rest.takeWhile isDigit)) := by
+  obtain ⟨rest', t, hd', hdw, htw⟩ := (idHere_isSome_iff x).mp h
+  rw [hd] at hd'
+  cases hd'
+  unfold idHere
+  rw [hd]
+  simp only [hdw]
+  cases hz : rest.takeWhile isDigit with
+  | nil => exact absurd hz htw
+  | cons d ds => simp
+
+/-- **The id `firstId` returns is the engine's capture group 1, read as a decimal** (texts
+without `ſ`): leftmost match, forced decomposition, maximal digit run. -/
+theorem firstId_eq_findGroup (b : Bytes) (hb : NoLongS b) :
+    firstId b = (findGroup Gen.Rx.Netconf.messageID b 1).map atoiClamp := by
+  have hfind := find_messageID b hb
+  rw [firstId_eq_firstFrom]
+  unfold findGroup
+  cases hf : find Gen.Rx.Netconf.messageID b with
+  | none =>
+    rw [hf] at hfind
+    cases hk : firstFrom (hereId b) (b.length + 1) 0 with
+    | none => rfl
+    | some k => rw [hk] at hfind; cases hfind
+  | some x =>
+    obtain ⟨a, e, c⟩ := x
+    rw [hf] at hfind
+    cases hk : firstFrom (hereId b) (b.length + 1) 0 with
+    | none => rw [hk] at hfind; cases hfind
+    | some k =>
+      rw [hk] at hfind
+      simp only [Option.map_some, Option.some.injEq, Prod.mk.injEq] at hfind
+      obtain ⟨rfl, _⟩ := hfind
+      obtain ⟨p, q, _, hp, _, hpa, _, hM⟩ := find_soundC hf
+      have hg : NoLongS p.after := by rw [hp.after_eq]; exact hb.drop _
+      obtain ⟨rest, hd, h12, hrest, hc, hle⟩ := messageID_caps hg hM
+      have hsome := ((matches_messageID p q hg).mp hM.forget).1
+      rw [hp.after_eq, hpa] at hd hsome hrest
+      simp only [Option.bind_some]
+      rw [idHere_eq hd hsome, hc, hpa]
+      simp only [Caps.get, beq_self_eq_true, if_true, Option.map_some, Option.some.injEq]
+      congr 1
+      rw [List.drop_drop] at hrest
+      have : a + 12 + (rest.takeWhile isDigit).length - (a + 12) = (rest.takeWhile isDigit).length := by
+        omega
+      rw [this, ← hrest]
+      exact (span_canon rest).1.symm
 
 
 end Scrapli.Rx
